@@ -64,6 +64,63 @@ class Prop:
         """Replay the recorded witness of a known finding natively: dict(failed, outcome)."""
         return None
 
+    def replay_file(self, rp: dict, new_world=None, timeout=60.0):
+        """Re-check what a replay file names, against the current tree: the bounded stand-in, the static obligation, or the one obligation
+        (its function is re-verified, the obligation re-solved, a counter-model replayed natively).  Returns (report, still_fails)."""
+        from .symexec import Executor
+
+        if "bound" in rp and "name" in rp and "obligation" not in rp:
+            for b in self.bounded(os.environ.get("VERIF_TIER", "quick")):
+                if b["name"] == rp["name"]:
+                    return {"bounded": b["name"], "evaluations": b["evaluations"], "failures": b["failures"], "detail": b.get("detail")}, bool(b["failures"])
+            return {"bounded": rp["name"], "error": "no such stand-in any more"}, False
+        oid = rp.get("obligation", "")
+        w = new_world()
+        self.setup(w)
+        worlds = {"main": w}
+        for wn, fn in getattr(self, "extra_worlds", {}).items():
+            w2 = new_world()
+            fn(w2)
+            worlds[wn] = w2
+        if rp.get("kind") == "static" or oid.startswith("static/"):
+            for name, ok, detail in self.static_checks(w):
+                if name == oid:
+                    return {"obligation": oid, "kind": "static", "holds_now": bool(ok), "detail": detail}, not ok
+            return {"obligation": oid, "kind": "static", "error": "no such static obligation any more"}, False
+        wname, bare = oid.split("::", 1) if "::" in oid and getattr(self, "tag_worlds", False) else ("main", oid)
+        qual = bare.split("/", 1)[0]
+        cands = []
+        for t in self.targets:
+            tw, key = t.split("::", 1) if "::" in t else ("main", t)
+            if key.split(":", 1)[1].split("#")[0] == qual and (tw == wname or not getattr(self, "tag_worlds", False)):
+                cands.append((tw, key))
+        out = {"obligation": oid, "verdicts": []}
+        fails = False
+        for tw, key in cands:
+            ex = Executor(worlds[tw], self.id)
+            try:
+                obs = ex.verify(worlds[tw].contracts[key])
+            except Unsupported as e:
+                out["verdicts"].append({"function": key, "undecided": str(e)})
+                continue
+            for ob in obs:
+                if ob.id != bare:
+                    continue
+                r = smt.solve_formula(worlds[tw], ob.hyps, ob.goal, timeout)
+                ob.verdict, ob.solver, ob.seconds, ob.model, ob.reason = r
+                rec = ObRec(ob)
+                entry = {"function": key, "world": tw, "verdict": ob.verdict, "solver": ob.solver, "seconds": round(ob.seconds, 2)}
+                if ob.verdict != "unsat":
+                    fails = True
+                    try:
+                        entry["native_replay"] = self.replay(rec)
+                    except Exception as e:  # replay trouble never hides the verdict
+                        entry["native_replay"] = {"failed": False, "outcome": f"replay harness error: {type(e).__name__}: {e}"}
+                out["verdicts"].append(entry)
+        if not out["verdicts"]:
+            out["error"] = "the obligation is not generated from the current tree (function renamed, or the path no longer exists)"
+        return out, fails
+
 
 class ObRec:
     """Plain record of one obligation after solving (picklable)."""
